@@ -26,12 +26,11 @@ from vf.coqlit import cbool, clist, cstr
 
 THEOREMS = [
     "C12_generated_facts", "C12_generated_hash_freezes_deep", "C12_kept_spec", "C12_eq_spec",
-    "C12_eq_spec_descriptor_partial", "C12_eq_same_descriptor_refuted", "C12_eq_spec_grouped", "C12_eq_total",
+    "C12_distinct_descriptors_unequal", "C12_coincidence_unequal", "C12_eq_spec_grouped", "C12_eq_total",
     "C12_ne_negates", "C12_eq_refl", "C12_eq_sym", "C12_freeze_total", "C12_hashable", "C12_eq_hash",
     "C12_scope_restored", "C12_scope_restored_nested", "C12_nan", "C12_hyp_satisfiable",
 ]
 
-KF_IDENT = "C12-identifier-coincidence"
 UTC = pydt.timezone.utc
 T0 = pydt.datetime(2023, 5, 6, 7, 8, 9, 123456, tzinfo=UTC)
 ENV_VAR = "FLOW_RECORD_IGNORE"
@@ -112,29 +111,6 @@ def spec_eq(x, y, ign):
         if not spec_val_eq(packed(getattr(x, k)), packed(getattr(y, k)), ign):
             return False
     return True
-
-
-def coincidence(x, y, ign):
-    """is there a pair of corresponding records with DIFFERENT descriptors but the same identifier?"""
-    from flow.record import GroupedRecord, Record
-    if not (isinstance(x, Record) and isinstance(y, Record)):
-        return False
-    if isinstance(x, GroupedRecord) or isinstance(y, GroupedRecord):
-        if isinstance(x, GroupedRecord) and isinstance(y, GroupedRecord):
-            return any(coincidence(p, q, ign) for p, q in zip(x.records, y.records))
-        return False
-    if not same_descriptor(x, y):
-        return x._desc.identifier == y._desc.identifier
-    for k in x.__slots__:
-        if k in ign:
-            continue
-        a, b = getattr(x, k), getattr(y, k)
-        if isinstance(a, Record) and isinstance(b, Record) and coincidence(a, b, ign):
-            return True
-        if isinstance(a, list) and isinstance(b, list):
-            if any(coincidence(p, q, ign) for p, q in zip(a, b)):
-                return True
-    return False
 
 
 # ------------------------------------------------------------------------------------------------------
@@ -460,14 +436,19 @@ def special_pairs():
     out.append(("digest-case-ip-forms", P(p="/a/b", c="ls  -l   /tmp", cs=["a b", "c"], g=(md5.upper(), None, None), i="1.2.3.4", _generated=T0),
                 P(p="/a/b", c="ls -l /tmp", cs=["a b", "c"], g=(md5, None, None), i=16909060, _generated=T0)))
     out.append(("command-args", P(p="", c="ls -l", cs=[], g=None, i=None, _generated=T0), P(p="", c="ls -a", cs=[], g=None, i=None, _generated=T0)))
-    # the known finding: two DIFFERENT descriptors with the same identifier
+    # two DIFFERENT descriptors with the same identifier (name, 32-bit hash): records of them are unequal
     D1 = RecordDescriptor("t/c", [("stringlist", "a"), ("string", "b")])
     D2 = RecordDescriptor("t/c", [("string", "a"), ("string", "listb")])
-    out.append(("identifier-coincidence", D1(b="y", _generated=T0), D2(listb="y", _generated=T0)))
+    assert D1.identifier == D2.identifier and D1 != D2
     N = RecordDescriptor("sp/n", [("record", "r"), ("record[]", "rs")])
-    out.append(("identifier-coincidence-nested", N(r=D1(b="y", _generated=T0), rs=[], _generated=T0),
-                N(r=D2(listb="y", _generated=T0), rs=[], _generated=T0)))
-    out.append(("identifier-coincidence-grouped", GroupedRecord("g", [D1(b="y", _generated=T0)]), GroupedRecord("g", [D2(listb="y", _generated=T0)])))
+    c1, c2 = D1(b="y", _generated=T0), D2(listb="y", _generated=T0)
+    out.append(("identifier-coincidence", c1, c2))
+    out.append(("identifier-coincidence-reversed", c2, c1))
+    out.append(("identifier-coincidence-nested", N(r=c1, rs=[], _generated=T0), N(r=c2, rs=[], _generated=T0)))
+    out.append(("identifier-coincidence-nested-list", N(r=None, rs=[c2, c1], _generated=T0), N(r=None, rs=[c1, c1], _generated=T0)))
+    out.append(("identifier-coincidence-grouped", GroupedRecord("g", [c1]), GroupedRecord("g", [c2])))
+    out.append(("identifier-coincidence-grouped-reversed", GroupedRecord("g", [c2, c1]), GroupedRecord("g", [c1, c1])))
+    out.append(("identifier-coincidence-group-vs-plain", GroupedRecord("t/c", [c1]), c2))
     out.append(("nested-differs-deep", N(r=F(f=1.0, fl=[2.0], _generated=T0), rs=[F(f=1.0, fl=[2.0], _generated=T0)], _generated=T0),
                 N(r=F(f=1.0, fl=[2.0], _generated=T0), rs=[F(f=1.0, fl=[2.5], _generated=T0)], _generated=T0)))
     return [(n, x, x if y is None else y) for n, x, y in out]
@@ -569,7 +550,7 @@ def show(x):
 
 
 def judge(kind, x, y, cfg, mech, o, problem):
-    """returns None when the property holds on this case, else (what, is_identifier_coincidence)"""
+    """returns None when the property holds on this case, else (what, False)"""
     from flow.record import Record
     where = "%s pair under ignore=%s via %s: x=%s y=%s" % (kind, sorted(cfg), mech, show(x), show(y))
     if problem:
@@ -583,12 +564,11 @@ def judge(kind, x, y, cfg, mech, o, problem):
     if x is y and isinstance(x, Record):
         want = True                      # reflexivity is demanded outright (also for NaN)
     eq = o["eq"][1]
-    coin = coincidence(x, y, cfg)
     if not isinstance(eq, bool):
         return "x == y returned %r, not a bool (%s)" % (eq, where), False
     if eq != want:
         return "x == y is %s but the records %s (%s)" % (
-            eq, "have the same descriptor and equal kept values" if want else "differ in descriptor or in a kept value", where), coin and eq
+            eq, "have the same descriptor and equal kept values" if want else "differ in descriptor or in a kept value", where), False
     if o["rev"][1] != eq:
         return "== is not symmetric: x == y is %s, y == x is %s (%s)" % (eq, o["rev"][1], where), False
     if o["ne"][1] != (not eq):
@@ -761,20 +741,13 @@ def env_check(ctx, on_bad):
 # ------------------------------------------------------------------------------------------------------
 
 class Reporter:
-    """first genuine violation is reported with its concrete input; listed findings are announced once"""
+    """the first violation is reported with its concrete input"""
 
     def __init__(self, ctx, kf, prefix=""):
-        self.ctx, self.kf, self.prefix = ctx, kf, prefix
+        self.ctx, self.prefix = ctx, prefix
         self.reported = False
-        self.known = 0
 
-    def __call__(self, what, is_coincidence, replay):
-        if is_coincidence:
-            f = next((f for f in self.kf if f["id"] == KF_IDENT), None)
-            if f:
-                self.known += 1
-                self.ctx.known_finding(f["id"], f["what"])
-                return
+    def __call__(self, what, _unused, replay):
         if not self.reported:
             self.reported = True
             replay = dict(replay)
@@ -819,7 +792,7 @@ def run(ctx):
         "variations (declared, reserved, inside a nested record, inside a group member), with the same values under "
         "another descriptor (name / field name / field type / extra field), with another item, with a non-record, group "
         "vs member / renamed / shortened / reordered / re-grouped; plus hand-picked edge pairs (NaN, signed zeros, "
-        "int/float/bool, dict key order, time zones and fold, path/command/digest/ip forms, identifier coincidence).  "
+        "int/float/bool, dict key order, time zones and fold, path/command/digest/ip forms, two descriptors sharing (name, hash) -- plain, nested, grouped, both directions).  "
         "Configurations: {}, {_generated}, one declared field, several declared+reserved, an unknown name; installed by "
         "set_ignored_fields_for_comparison, the context manager (normal exit, exit by exception, nested, body that sets "
         "again) and the environment variable in a fresh interpreter.  distinct = distinct (pair kind, shapes of x and y, "
@@ -849,7 +822,6 @@ def run(ctx):
     if rep.reported:
         return
     value_cases(ctx, shards)
-    # the known finding must still be what the model says it is
     texts = [("c12_%04d" % i, sh.text()) for i, sh in enumerate(shards) if sh.cases]
     res = core.run_case_shards(ctx.work, texts, timeout=600)
     failing = []
